@@ -10,6 +10,7 @@ import (
 	"github.com/Breeze0806/gobinlog"
 	"pgregory.net/rapid"
 
+	"verif/fakemaster"
 	"verif/gen"
 	"verif/hist"
 	"verif/refenc"
@@ -124,7 +125,7 @@ func checkC08(c *StabilityCase) error {
 		snaps = append(snaps, snap)
 		return nil
 	}
-	st := ss.run(attempt{l: l, pacing: c.E.Pacing, handler: handler})
+	st := ss.run(attempt{l: l, pacing: c.E.Pacing, handler: handler, plan: &fakemaster.ConnPlan{Chop: c.E.Chop}})
 	st.drainLib()
 	if err := st.panicErr(); err != nil {
 		return err
@@ -221,6 +222,9 @@ func TestC08(t *testing.T) {
 		}
 		c := &StabilityCase{E: E2ECase{H: gen.History(rt, ho)}, Scribble: rapid.Bool().Draw(rt, "scribble")}
 		c.E.Pacing = rapid.IntRange(0, 1).Draw(rt, "pacing")
+		if rapid.IntRange(0, 2).Draw(rt, "chop") == 0 {
+			c.E.Chop = rapid.Uint32Range(1, 1<<32-1).Draw(rt, "chop_seed")
+		}
 		// push some string / blob values to 3000..9000 bytes so that packets straddle the driver's 4 KiB buffer
 		big, zeroTS := 0, 0
 		for ui := range c.E.H.Units {
